@@ -37,6 +37,15 @@ class LocateSlice(Contract):
                             yield {"name": "bbox-%s-%s-step%s-%s%s" % (kind, direction, step, "a" if has_start else "_", "b" if has_stop else "_"),
                                    "mode": "bbox", "kind": kind, "dir": direction, "step": step,
                                    "has_start": has_start, "has_stop": has_stop}
+        # monotonic WITH repeated labels (non-decreasing / non-increasing): still a bounding box
+        for direction in ("inc-ties", "dec-ties"):
+            for step in STEPS:
+                for has_start in (True, False):
+                    for has_stop in (True, False):
+                        if tier == "quick" and step in (3, -2, 2):
+                            continue
+                        yield {"name": "bbox-f-%s-step%s-%s%s" % (direction, step, "a" if has_start else "_", "b" if has_stop else "_"),
+                               "mode": "bbox", "kind": "f", "dir": direction, "step": step, "has_start": has_start, "has_stop": has_stop}
         for kind in ("O", "f"):
             for step in STEPS:
                 for has_start in (True, False):
@@ -51,7 +60,12 @@ class LocateSlice(Contract):
     def setup(self, S, case):
         values = S.array1d("values", case["kind"])
         n = S.n(values)
-        if case["mode"] == "bbox":
+        if case["mode"] == "bbox" and case["dir"].endswith("-ties"):
+            for nm, f in self._ties(S, case, values):
+                S.assume(f, nm)
+            start = S.real("start") if case["has_start"] else None
+            stop = S.real("stop") if case["has_stop"] else None
+        elif case["mode"] == "bbox":
             assume_order(S, values, case["dir"])
             start = S.real("start") if case["has_start"] else None
             stop = S.real("stop") if case["has_stop"] else None
@@ -68,9 +82,21 @@ class LocateSlice(Contract):
                "args": (values, start, stop, case["step"])}
         return env
 
+    def _ties(self, S, case, v):
+        n = S.n(v)
+        if case["dir"] == "inc-ties":
+            yield "labels non-decreasing", S.forall2(0, n, lambda i, j: S.at(v, i) <= S.at(v, j))
+        else:
+            # (an axis whose last label is not below its first -- all labels equal -- counts as increasing)
+            yield "labels non-increasing, the last below the first", S.land(n >= 2, S.forall2(0, n, lambda i, j: S.at(v, i) >= S.at(v, j)),
+                                                                         S.implies(n >= 2, lambda: S.at(v, n - 1) < S.at(v, 0)))
+
     def requires(self, S, case, env):
         v = env["values"]
-        if case["mode"] == "bbox":
+        if case["mode"] == "bbox" and case["dir"].endswith("-ties"):
+            for c in self._ties(S, case, v):
+                yield c
+        elif case["mode"] == "bbox":
             if case["dir"] == "inc":
                 yield "increasing", strictly_increasing(S, v)
             else:
@@ -100,7 +126,7 @@ class LocateSlice(Contract):
     # -- spec ----------------------------------------------------------------
     def _inbox(self, S, case, env, p):
         L = S.at(env["values"], p)
-        sgn = (1 if case["dir"] == "inc" else -1) * (1 if _step(case) > 0 else -1)
+        sgn = (1 if case["dir"].startswith("inc") else -1) * (1 if _step(case) > 0 else -1)
         cs = []
         if env["start"] is not None:
             cs.append(env["start"] <= L if sgn > 0 else env["start"] >= L)
